@@ -44,9 +44,16 @@ def run(ctx):
         raise vf.Infra("the model without the path-context escape should deadlock (got %r)" % r.violated)
     ctx.set("design_deadlocks_without_path_ctx_escape", True)
 
+    # directed replays of the orders the model flags as delicate (path parked before setPathReady
+    # while the manager closes it / shuts down), then the free-running stress, both under -race
     of = ctx.path("obs.ndjson")
+    od = ctx.path("directed.ndjson")
+    rc0, out0 = vf.gotest(ctx, "./internal/core/", "^TestVerif_C40_Directed$", out=od, race=True, timeout=900,
+                          params={"REPEAT": ctx.pick(3, 20)})
     rc, out = vf.gotest(ctx, "./internal/core/", "^TestVerif_C40_Stress$", out=of, race=True, timeout=1500,
                         params={"ROUNDS": ctx.pick(8, 60), "MS": ctx.pick(500, 1500)})
+    out = out0 + out
+    rc = rc or rc0
     races = re.findall(r"WARNING: DATA RACE.*?(?:==================|\Z)", out, re.S)
     if rc != 0 and not races:
         raise vf.Infra("stress harness failed (rc=%d)\n%s" % (rc, out[-5000:]))
@@ -55,7 +62,7 @@ def run(ctx):
         ctx.violation({"monitor": "NoDataRace", "functions": fns[:4]}, "the Go race detector reports a data race during the stress:\n" + rr[:3000])
     if not os.path.exists(of):
         raise vf.Infra("stress harness produced no trace")
-    obs = vf.read_ndjson(of)
+    obs = (vf.read_ndjson(od) if os.path.exists(od) else []) + vf.read_ndjson(of)
     slim = [{"run": o["run"], "ops": o["ops"], "shutdown": o["shutdown"]} for o in obs]
     vf.write_ndjson(os.path.join(d, "C40_trace.ndjson"), slim)
     with open(os.path.join(d, "Ch_tv.cfg"), "w") as fh:
